@@ -632,3 +632,4 @@ PROPS["C17"]["rule"] += (" The concurrent part also runs with a 1 ms TTL (entrie
 PROPS["C09"]["rule"] += " After every operation an embedded ('evaluate!') rule is evaluated at every location with a context that was last used for another location: its action must run in, and write to, the location it was sent to."
 PROPS["C15"]["rule"] += " Schedules in the sys.System part are either recurring or bounded (a year-bounded cron expression with exactly one occurrence); a bounded rule must run once, never twice, and a restart after its occurrence must still load the location."
 PROPS["C13"]["rule"] += " Half of the cases run with the real in-process cron behind the state hooks (never started: parsing and book-keeping only), and a quarter of the rule/fact cases carry a generated schedule (cron expressions built from a hostile field alphabet, one-shot forms). The canary includes a fact that depends (deleteWith) on another canary fact."
+PROPS["C13"]["rule"] += " System cases run with and without CheckExistence. Accepted facts and rules — those with generated ids and property facts (`!`-keys) included — are removed again by the id the call returned (removal must succeed) before the canary transcript is compared with a fresh twin; only access keys and the location's off switch are exempt."
